@@ -1,6 +1,8 @@
 package main
 
 import (
+	"hash/crc32"
+	"io"
 	"bytes"
 	"crypto"
 	"crypto/sha256"
@@ -16,10 +18,29 @@ import (
 	"github.com/foxboron/go-uefi/authenticode"
 )
 
+// eofAtEnd is a conforming io.ReaderAt that reports io.EOF together with a read that reaches the
+// end of the input (the io.ReaderAt contract allows either err == EOF or err == nil there)
+type eofAtEnd struct{ b []byte }
+
+func (r eofAtEnd) ReadAt(p []byte, off int64) (int, error) {
+	if off < 0 || off > int64(len(r.b)) {
+		return 0, io.EOF
+	}
+	n := copy(p, r.b[off:])
+	if n < len(p) || int(off)+n == len(r.b) {
+		return n, io.EOF
+	}
+	return n, nil
+}
+
 func goDigest(img []byte, h crypto.Hash) (digest []byte, class string) {
 	var p *authenticode.PECOFFBinary
 	var err error
-	if pan, _ := safely(func() { p, err = authenticode.Parse(bytes.NewReader(img)) }); pan {
+	var rd io.ReaderAt = bytes.NewReader(img)
+	if crc32.ChecksumIEEE(img)%2 == 1 { // the reader kind is a function of the input: replays are exact
+		rd = eofAtEnd{img}
+	}
+	if pan, _ := safely(func() { p, err = authenticode.Parse(rd) }); pan {
 		return nil, "panic"
 	}
 	if err != nil {
@@ -259,7 +280,7 @@ func alignSpec(s peSpec, j, a int) peSpec {
 
 func init() {
 	register("C01", &PropDef{
-		Rule:   "generated well-formed images over {PE32, PE32+} x e_lfanew {0x40, 0x48, 0x80, random} x 5..16 data directories x 0..8 (thorough: ..96) sections x size classes {0,1,7,8,9,512,random, >32 KiB and >64 KiB every 25th image so that io.Copy's 32 KiB reads cross part boundaries} x part boundaries aligned to 32 KiB / 512 B in the hashed stream (section ends at offset = 12 mod the read size) x header order (random permutation / file order) x gaps x SizeOfHeaders slack x trailing length {0,1,7,8,9,random} x certificate table {none, 1, 2 entries} x 3 machine types; the repository's binaries; per image ~25 stratified byte changes (header fields, checksum, directory entry, section table, slack, section boundaries, gaps, tail, certificate table). Non-trivial: image longer than 256 bytes / every flip; distinct = distinct specs and (image, position, mask).",
+		Rule:   "generated well-formed images over {PE32, PE32+} x e_lfanew {0x40, 0x48, 0x80, random} x 5..16 data directories x 0..8 (thorough: ..96) sections x size classes {0,1,7,8,9,512,random, >32 KiB and >64 KiB every 25th image so that io.Copy's 32 KiB reads cross part boundaries} x part boundaries aligned to 32 KiB / 512 B in the hashed stream (section ends at offset = 12 mod the read size) x header order (random permutation / file order) x gaps x SizeOfHeaders slack x trailing length {0,1,7,8,9,random} x certificate table {none, 1, 2 entries} x 3 machine types; the repository's binaries; per image ~25 stratified byte changes (header fields, checksum, directory entry, section table, slack, section boundaries, gaps, tail, certificate table). Half of the images (by a checksum of their bytes) are read through a conforming io.ReaderAt that reports io.EOF together with the read that reaches the end of the file. Non-trivial: image longer than 256 bytes / every flip; distinct = distinct specs and (image, position, mask).",
 		Assume: []string{"debug/pe.NewFile accepts the generated headers (machine type from its whitelist, no symbol table, no relocations, section names not starting with '/')", "SHA-256 does not collide on the pre-images compared"},
 		Eval:   c01Eval, Gen: c01Gen,
 	})
